@@ -109,6 +109,37 @@ def scenarios(rnd):
             st.append(ev(t0 + (ans + 0.5) * T, dict({"t": "recv", "peer": 0, "seq": 0, "msg": {"k": "srr", "hdr": 10}}, **E)))
         st.append(dump(t0 + (r + 1.5) * T))
         out.append({"name": "c09-budget", "retrans_ms": T, "maxretrans": r, "txseq0": 0, "steps": st, "end_ms": int(t0 + (r + 1.7) * T)})
+    # --- C06: the expiry of a TRANSMIT transaction must not touch the RECEIVE transaction with the same (peer, sequence number)
+    for r in (1, rnd.choice([2, 3])):
+        T = rnd.choice([150, 200])
+        st, t = prefix_steps()
+        st.append(ev(t, rc(0, 2, {"k": "est", "nid": {"v": 0}, "fseid": {"v": 10}, "ops": {"cFAR": [1]}})))
+        q = rnd.choice([7, 30])
+        t1 = t + 40
+        st += [ev(t1, rc(0, q, mod(1, 31))),                 # receive transaction (peer 0, q), retained until t1 + (r+1) T
+               ev(t1 + 0.2 * T, dld(1)),                     # Session Report Request with sequence number q, unanswered: expires at t1 + 1.2 T
+               ev(t1 + 1.5 * T, rc(0, q, mod(1, 31))),        # retransmission of the SMF's request, well inside its window
+               dump(t1 + 1.6 * T)]
+        out.append({"name": "c06-tx-expiry-vs-rx", "retrans_ms": T, "maxretrans": r, "txseq0": q, "steps": st, "end_ms": int(t1 + 1.7 * T)})
+    # --- C06: a request that is never answered is released after the window too; its number can then be used again
+    for _ in range(1):
+        T, r = rnd.choice([150, 200]), rnd.choice([0, 1])
+        W = T * (r + 1)
+        s_ = rnd.randrange(40, 90)
+        st = [ev(0, rc(1, s_, {"k": "est", "nid": {"v": 1}, "fseid": {"v": 10}, "ops": {"cFAR": [1]}})),     # no association: dropped, no answer
+              ev(W + 0.45 * T, rc(1, s_, {"k": "asr", "nid": {"v": 1}})),
+              dump(W + 0.45 * T + 40)]
+        out.append({"name": "c06-unanswered-released", "retrans_ms": T, "maxretrans": r, "txseq0": 0, "steps": st, "end_ms": int(W + 0.45 * T + 80)})
+    # --- C09: every write to the peer fails (node id 192.0.2.x from a loopback-bound socket): the request is still retried on
+    #     schedule (each retry fails too), abandoned after the budget, and its bookkeeping released
+    for r in (rnd.choice([1, 2]), 3):
+        T = rnd.choice([150, 200])
+        st = [ev(0, rc(0, 1, {"k": "asr", "nid": {"v": 1077}})),
+              ev(15, rc(0, 2, {"k": "est", "nid": {"v": 1077}, "fseid": {"v": 10}, "ops": {"cFAR": [1]}}))]
+        t0 = 60
+        st += [ev(t0, dld(1)), dump(t0 + 0.5 * T), dump(t0 + (r + 1.6) * T)]
+        out.append({"name": "c09-unreachable-peer", "retrans_ms": T, "maxretrans": r, "txseq0": 0, "steps": st,
+                    "end_ms": int(t0 + (r + 1.8) * T), "unreachable": "192.0.2.77"})
     for c in out:
         c["steps"].sort(key=lambda s: s["at_ms"])
     return out
@@ -151,6 +182,9 @@ def mon_c06_timed(case, o):
             if f["rsp"] and [d["send"]["hex"] for d in rsp] != [f["rsp"][0]]:
                 bad.append("retransmission of request (peer %d, seq %d) was not answered with the bytes of the first answer" % key)
         elif f is None or t > f["t"] + W + tol:
+            if e["msg"]["k"] in ("asr", "hb") and not rsp:
+                bad.append("request (peer %d, seq %d) received %s was not answered" % (
+                    key[0], key[1], "for the first time" if f is None else "%d ms after an earlier use of the number (window %d ms)" % (t - f["t"], W)))
             accepted = any(d["send"]["type"] == "modrsp" and d["send"]["cause"] == 1 for d in rsp)
             if e["msg"]["k"] == "mod" and accepted and not calls:
                 bad.append("request (peer %d, seq %d) received %s was not executed" % (
@@ -198,6 +232,18 @@ def mon_c09_timed(case, o):
             if not mine and t0 + tol < dmp["t_ms"] < t0 + (r + 1) * T - tol and k not in keys:
                 bad.append("transaction of Session Report Request (peer %d, seq %d) released %d ms after the first copy, before the retry budget (%d x %d ms) was used"
                            % (dst, seq, dmp["t_ms"] - t0, r + 1, T))
+    if case.get("unreachable"):
+        # nothing reaches anybody; judged on the transaction table: present while the budget lasts, released afterwards
+        t0 = [t for t, e in _deliveries(case, o) if e["t"] == "report"][0]
+        for dmp in o["dumps"] or []:
+            keys = [x["key"] for x in (dmp["dump"].get("tx") or [])]
+            mine = [k for k in keys if k.startswith(case["unreachable"] + ":8805-")]
+            if dmp["t_ms"] > t0 + (r + 1) * T + tol and mine:
+                bad.append("transaction %s (every write to the peer fails) still in the table %d ms after the first attempt: budget %d x %d ms"
+                           % (mine[0], dmp["t_ms"] - t0, r + 1, T))
+            if t0 + tol < dmp["t_ms"] < t0 + (r + 1) * T - tol and not mine:
+                bad.append("transaction towards %s released %d ms after the first attempt, before the retry budget was used" % (case["unreachable"], dmp["t_ms"] - t0))
+        return bad
     # a SEID-0 response that arrives while its request is outstanding removes the session
     for t, e in rsps:
         if e["msg"]["hdr"] != 0:
